@@ -57,6 +57,16 @@ def main():
         'notes': 'See DESIGN.md. Exit codes of ./check: 0 held, 1 violation (VIOLATION line), 2 the check itself is broken.',
     }
     json.dump(man, open(os.path.join(HERE, 'MANIFEST.json'), 'w'), indent=1)
+    # root module of the Lean library: every Model/Proofs/Props/Audit module that exists
+    mods = []
+    base = os.path.join(HERE, 'lean', 'AlgopyVerif')
+    for sub in ('Model', 'Proofs', 'Props', 'Audit'):
+        d = os.path.join(base, sub)
+        if os.path.isdir(d):
+            for f in sorted(os.listdir(d)):
+                if f.endswith('.lean') and not (sub == 'Model' and f == 'Dispatch.lean'):
+                    mods.append('import AlgopyVerif.%s.%s' % (sub, f[:-5]))
+    open(os.path.join(HERE, 'lean', 'AlgopyVerif.lean'), 'w').write('\n'.join(mods) + '\n')
     print('wrote MANIFEST.json with %d checks, %d not_applicable' % (len(checks), len(na)))
 
 if __name__ == '__main__':
